@@ -11,6 +11,22 @@ import libmodel
 FN_BY_ID = {}
 
 
+def fresh_bit_flag(d):
+    """d == (M & S == 0) converted to an integer (`u8::from(..)`, `as u8`): returns (M, S), else None"""
+    x = d
+    for _ in range(3):
+        if x.op == "cast":
+            x = x.args[1]
+        elif x.op == "call" and "From<bool>" in x.args[0] and x.args[1]:
+            x = x.args[1][0]
+        else:
+            break
+    if x.op == "bin" and x.args[0] == "Eq" and is_const(x.args[2]) and const_val(x.args[2]) == 0 and x.args[1].op == "bin" and x.args[1].args[0] == "BitAnd":
+        a, b = x.args[1].args[1], x.args[1].args[2]
+        return (a, b) if a.op == "phi" else (b, a)
+    return None
+
+
 def register(fn):
     FN_BY_ID[id(fn)] = fn
 
@@ -432,9 +448,26 @@ class Intervals:
         if len(deltas) != 1:
             return None
         pb, d = deltas[0]
+        fa = self.fa
+        fl = fresh_bit_flag(d)
+        if fl is not None:
+            # the unguarded spelling:  counter += u8::from(mask & bit == 0);  mask |= bit;   (the flag is 1 exactly when the bit is new)
+            M, S = fl
+            if M.op == "phi" and M.args[2] == t.args[2] and S.op == "bin" and S.args[0] == "Shl" and is_const(S.args[1]) and const_val(S.args[1]) == 1:
+                idt = S.args[2]
+                ors = []
+                for qb, w in fa.phi_operands(M):
+                    if w.op == "bin" and w.args[0] == "BitOr" and (w.args[1] is M or w.args[2] is M):
+                        ors.append(w.args[2] if w.args[1] is M else w.args[1])
+                    elif w is not M and not is_const(w):
+                        ors.append(None)
+                if ors and all(o is S for o in ors):
+                    ii = self.interval(idt, pb, depth + 1)
+                    if ii is not None and ii[0] >= 0 and ii[1] - ii[0] < 4096:
+                        return ii[1] - ii[0] + 1
+            return None
         if not (is_const(d) and const_val(d) == 1):
             return None
-        fa = self.fa
         # the increment's own block: the Add term is defined where the guard holds; use the guards of pb and its dominators
         for g in fa.guards(pb):
             fc = fact_of_guard(g)
